@@ -39,7 +39,15 @@ func AllowAllResetsMap(p *core.Program, r *core.Report, rule string) {
 		for _, list := range blocks {
 			for i, st := range list {
 				as, ok := st.(*ast.AssignStmt)
-				if !ok || len(as.Lhs) != 1 || len(as.Rhs) != 1 || core.FieldOf(info, as.Lhs[0]) != fld || core.ExprStr(as.Rhs[0]) != "true" {
+				if !ok || len(as.Lhs) != 1 || len(as.Rhs) != 1 || core.FieldOf(info, as.Lhs[0]) != fld {
+					continue
+				}
+				// any value that may be true - except the constant false and the flag of another set (a copy of a
+				// canonical set is canonical)
+				if v, isC := core.ConstString(info, as.Rhs[0]); isC && v == "false" {
+					continue
+				}
+				if core.FieldOf(info, as.Rhs[0]) == fld {
 					continue
 				}
 				n++
@@ -67,7 +75,7 @@ func AllowAllResetsMap(p *core.Program, r *core.Report, rule string) {
 		}
 	}
 	r.RuleCounts[rule] = n
-	r.Floor(rule, 2)
+	r.Floor(rule, 1) // merging the duplicated resets into one helper leaves a single instance
 }
 
 // ListEvalSiblingConditions is C03-e: the connection-set implementation (list) and the single-query implementation
@@ -378,30 +386,81 @@ func SliceShrinkByIdentity(p *core.Program, r *core.Report, rule string) {
 	n := 0
 	for _, fd := range p.FuncsIn(core.PkgEval) {
 		info := fd.Pkg.TypesInfo
+		sig := fd.Obj.Type().(*types.Signature)
+		mentionsParam := func(e ast.Node) bool {
+			hit := false
+			ast.Inspect(e, func(m ast.Node) bool {
+				if id, ok := m.(*ast.Ident); ok {
+					o := info.ObjectOf(id)
+					for i := 0; i < sig.Params().Len(); i++ {
+						if o == types.Object(sig.Params().At(i)) {
+							hit = true
+						}
+					}
+				}
+				return !hit
+			})
+			return hit
+		}
+		slicesCall := func(e ast.Expr, names ...string) *ast.CallExpr {
+			c, ok := ast.Unparen(e).(*ast.CallExpr)
+			if !ok {
+				return nil
+			}
+			fn := core.Callee(info, c)
+			if fn == nil || fn.Pkg() == nil || fn.Pkg().Path() != "slices" || len(c.Args) < 2 || FieldBehind(fd, c.Args[0]) != fld {
+				return nil
+			}
+			for _, nm := range names {
+				if fn.Name() == nm {
+					return c
+				}
+			}
+			return nil
+		}
 		w := facts.NewWalker(info)
 		w.OnStmt = func(s ast.Stmt, f facts.Formula) {
 			as, ok := s.(*ast.AssignStmt)
 			if !ok || len(as.Lhs) != 1 || len(as.Rhs) != 1 || core.FieldOf(info, as.Lhs[0]) != fld {
 				return
 			}
-			// a shrink: the right-hand side slices the field
-			shrinks := false
+			c := fd.Key() + ": the sorted admin-policy list loses exactly the policy that was asked for"
+			okWhy := "removal at the index found by comparing the element with the given policy"
+			badWhy := "an element is removed from the priority-sorted list by position (or outside the search for the given policy): after a sort the rejected or deleted policy is no longer where it was appended, so a different policy disappears and precedence is evaluated over the wrong set"
+			// slices.DeleteFunc(field, pred): the predicate compares its element with the given policy
+			if dc := slicesCall(as.Rhs[0], "DeleteFunc"); dc != nil {
+				n++
+				r.Check(mentionsParam(dc.Args[1]), rule, c, p.Pos(as.Pos()), okWhy, badWhy)
+				return
+			}
+			// a shrink: the right-hand side slices the field, or is slices.Delete on it
+			var idxExprs []ast.Expr
 			ast.Inspect(as.Rhs[0], func(m ast.Node) bool {
 				if sl, isSl := m.(*ast.SliceExpr); isSl && core.FieldOf(info, sl.X) == fld {
-					shrinks = true
+					if sl.Low != nil {
+						idxExprs = append(idxExprs, sl.Low)
+					}
+					if sl.High != nil {
+						idxExprs = append(idxExprs, sl.High)
+					}
+					if sl.Low == nil && sl.High == nil {
+						idxExprs = append(idxExprs, sl.X)
+					}
 				}
 				return true
 			})
-			if !shrinks {
+			if dc := slicesCall(as.Rhs[0], "Delete"); dc != nil {
+				idxExprs = append(idxExprs, dc.Args[1:]...)
+			}
+			if len(idxExprs) == 0 {
 				return
 			}
 			n++
-			// inside a loop over the field, under a comparison of the element with a parameter
+			// (a) inside a loop over the field, under a comparison of the element with a parameter
 			ok2 := false
 			if len(w.Loops) > 0 {
 				for _, a := range facts.Atoms(f) {
 					if (strings.HasPrefix(a, "eq:") || strings.HasPrefix(a, "cmp:")) && facts.Entails(f, facts.Atom(a)) {
-						sig := fd.Obj.Type().(*types.Signature)
 						for i := 0; i < sig.Params().Len(); i++ {
 							if strings.Contains(a, sig.Params().At(i).Name()) {
 								ok2 = true
@@ -410,8 +469,30 @@ func SliceShrinkByIdentity(p *core.Program, r *core.Report, rule string) {
 					}
 				}
 			}
-			r.Check(ok2, rule, fd.Key()+": the sorted admin-policy list loses exactly the policy that was asked for", p.Pos(as.Pos()), "removal at the index found by comparing the element with the given policy",
-				"an element is removed from the priority-sorted list by position (or outside the search for the given policy): after a sort the rejected or deleted policy is no longer where it was appended, so a different policy disappears and precedence is evaluated over the wrong set")
+			// (b) every index used is derived from slices.Index / IndexFunc of the field for the given policy
+			if !ok2 {
+				all := true
+				for _, ie := range idxExprs {
+					found := false
+					ast.Inspect(ie, func(m ast.Node) bool {
+						id, isId := m.(*ast.Ident)
+						if !isId {
+							return true
+						}
+						if d, _ := defOf(fd, id); d != nil {
+							if ic := slicesCall(d, "Index", "IndexFunc"); ic != nil && mentionsParam(ic.Args[1]) {
+								found = true
+							}
+						}
+						return true
+					})
+					if !found {
+						all = false
+					}
+				}
+				ok2 = all
+			}
+			r.Check(ok2, rule, c, p.Pos(as.Pos()), okWhy, badWhy)
 		}
 		w.WalkBody(fd.Decl.Body, nil)
 	}
@@ -475,22 +556,40 @@ func DiffWorkloadKeyAgreement(p *core.Program, r *core.Report, rule string) {
 			}
 		}
 		n, ok := 0, true
-		ast.Inspect(look.Decl.Body, func(nd ast.Node) bool {
-			ix, isIx := nd.(*ast.IndexExpr)
-			if !isIx {
+		// lookups in the function itself, or in a helper the set is handed to
+		var scan func(fd *core.FuncDecl, set *types.Var, depth int)
+		scan = func(fd *core.FuncDecl, set *types.Var, depth int) {
+			finfo := fd.Pkg.TypesInfo
+			ast.Inspect(fd.Decl.Body, func(nd ast.Node) bool {
+				switch x := nd.(type) {
+				case *ast.IndexExpr:
+					id, isID := ast.Unparen(x.X).(*ast.Ident)
+					if !isID || finfo.ObjectOf(id) != types.Object(set) {
+						return true
+					}
+					n++
+					if !isPeerString(finfo, x.Index) {
+						ok = false
+					}
+				case *ast.CallExpr:
+					fn := core.Callee(finfo, x)
+					hd := p.ByObj[fn]
+					if hd == nil || depth >= 2 {
+						return true
+					}
+					hsig := fn.Type().(*types.Signature)
+					for k, a := range x.Args {
+						if id, isID := ast.Unparen(a).(*ast.Ident); isID && finfo.ObjectOf(id) == types.Object(set) && k < hsig.Params().Len() {
+							scan(hd, hsig.Params().At(k), depth+1)
+						}
+					}
+				}
 				return true
-			}
-			id, isID := ast.Unparen(ix.X).(*ast.Ident)
-			if !isID || info.ObjectOf(id) != setP {
-				return true
-			}
-			n++
-			if !isPeerString(info, ix.Index) {
-				ok = false
-			}
-			return true
-		})
-		r.Check(n >= 2 && ok, rule, look.Key()+": new / lost is decided by looking the peer's String() up in the other report's workload set", p.Pos(look.Decl.Pos()), fmt.Sprintf("%d lookups", n), "the new/lost lookup uses a key other than Peer.String()")
+			})
+		}
+		_ = info
+		scan(look, setP, 0)
+		r.Check(n >= 1 && ok, rule, look.Key()+": new / lost is decided by looking the peer's String() up in the other report's workload set", p.Pos(look.Decl.Pos()), fmt.Sprintf("%d lookups", n), "the new/lost lookup uses a key other than Peer.String()")
 	}
 }
 
@@ -561,101 +660,71 @@ func RepresentativePairExclusionTable(p *core.Program, r *core.Report, rule stri
 		return
 	}
 	info := fd.Pkg.TypesInfo
-	// leaves of a condition, with one-line boolean helpers and boolean locals unfolded
-	var leaves func(in *types.Info, e ast.Expr, depth int) []string
-	leaves = func(in *types.Info, e ast.Expr, depth int) []string {
-		e = ast.Unparen(e)
-		switch x := e.(type) {
-		case *ast.BinaryExpr:
-			if x.Op == token.LAND || x.Op == token.LOR {
-				return append(leaves(in, x.X, depth), leaves(in, x.Y, depth)...)
-			}
-			s := core.ExprStr(x)
-			if strings.Contains(s, "IngressPodName") {
-				return []string{"ing"}
-			}
-			return []string{"other:" + s}
-		case *ast.UnaryExpr:
-			if x.Op == token.NOT {
-				return leaves(in, x.X, depth)
-			}
-		case *ast.Ident:
-			if in == info {
-				if d, _ := defOf(fd, x); d != nil {
-					return leaves(in, d, depth)
-				}
-			}
-			return []string{"other:" + x.Name}
-		case *ast.CallExpr:
-			fn := core.Callee(in, x)
-			if fn != nil {
-				switch fn.Name() {
-				case "IsRepresentativePeer":
-					return []string{"rep"}
-				case "IsPeerIPType":
-					return []string{"ip"}
-				}
-				if depth < 2 {
-					if ib := p.InlineBool(in, x); ib != nil {
-						return leaves(ib.Info, ib.Expr, depth+1)
-					}
-				}
-			}
-			return []string{"other:" + core.ExprStr(x)}
-		}
-		return []string{"other:" + core.ExprStr(e)}
+	sig := fd.Obj.Type().(*types.Signature)
+	if sig.Params().Len() < 3 {
+		r.Add(rule, fd.Key()+": signature", p.Pos(fd.Decl.Pos()), core.Undecided, "expected (pe, src, dst)")
+		return
 	}
-	n := 0
-	rows := map[string]bool{}
-	var stack []ast.Node
-	ast.Inspect(fd.Decl.Body, func(nd ast.Node) bool {
-		if nd == nil {
-			stack = stack[:len(stack)-1]
-			return true
+	src, dst := sig.Params().At(sig.Params().Len()-2), sig.Params().At(sig.Params().Len()-1)
+	ingName := ""
+	if pk := p.ByPath[core.PkgCommon]; pk != nil {
+		if c, ok := pk.Types.Scope().Lookup("IngressPodName").(*types.Const); ok {
+			ingName = c.Val().ExactString()
 		}
-		stack = append(stack, nd)
-		ret, ok := nd.(*ast.ReturnStmt)
-		if !ok || len(ret.Results) != 1 || core.ExprStr(ret.Results[0]) != "false" {
-			return true
+	}
+	if ingName == "" {
+		r.Add(rule, "common.IngressPodName", "", core.Undecided, "constant renamed or removed: re-anchor the rule")
+		return
+	}
+	// Decided on the path condition of every negative answer (helpers and boolean locals unfolded by the walker), not on
+	// the shape of the conditions: a `return false` is legitimate iff its path entails
+	//   (rep(src) & rep(dst))  |  (rep(src)|rep(dst)) & (ip(src)|ip(dst))  |  (rep(src)|rep(dst)) & (ing(src)|ing(dst)).
+	w := facts.NewWalker(info)
+	w.Atomize = PeerTypeAtomizer(info)
+	w.Inline = true
+	n := 0
+	w.OnExit = func(st int, ret *ast.ReturnStmt, f facts.Formula) {
+		if w.FuncLitDepth > 0 || ret == nil || len(ret.Results) != 1 {
+			return
+		}
+		s, d := w.PathOfVar(src), w.PathOfVar(dst)
+		// rep atoms: any b:<x>.IsRepresentativePeer(<peer>) atom in scope
+		var repS, repD facts.Formula = facts.False{}, facts.False{}
+		for _, a := range facts.Atoms(f) {
+			if strings.HasPrefix(a, "b:") && strings.Contains(a, ".IsRepresentativePeer(") {
+				if strings.HasSuffix(a, "("+s+")") {
+					repS = facts.Atom(a)
+				}
+				if strings.HasSuffix(a, "("+d+")") {
+					repD = facts.Atom(a)
+				}
+			}
+		}
+		ipS, ipD := facts.Atom("isIP:"+s), facts.Atom("isIP:"+d)
+		ingS, ingD := facts.Atom("eq:"+s+".Name()=="+ingName), facts.Atom("eq:"+d+".Name()=="+ingName)
+		someRep := facts.Or{L: repS, R: repD}
+		documented := facts.Or{L: facts.And{L: repS, R: repD}, R: facts.Or{
+			L: facts.And{L: someRep, R: facts.Or{L: ipS, R: ipD}},
+			R: facts.And{L: someRep, R: facts.Or{L: ingS, R: ingD}}}}
+		if v, ok := core.ConstString(info, ret.Results[0]); ok && v == "true" {
+			return
+		}
+		if !facts.Satisfiable(f) {
+			return
 		}
 		n++
-		var ls []string
-		for _, anc := range stack {
-			if ifs, isIf := anc.(*ast.IfStmt); isIf && ret.Pos() >= ifs.Body.Pos() && ret.Pos() < ifs.Body.End() {
-				ls = append(ls, leaves(info, ifs.Cond, 0)...)
-			}
+		c := fmt.Sprintf("%s: negative answer `return %s` is given only in the three documented cases", fd.Key(), core.Stable(info, ret.Results[0]))
+		if v, ok := core.ConstString(info, ret.Results[0]); !ok || v != "false" {
+			// a computed answer: it must imply nothing more than the documented cases when false - not decidable here
+			neg := facts.MkAnd(f, facts.MkNot(w.Cond(ret.Results[0])))
+			r.Check(!facts.Satisfiable(neg) || facts.Entails(neg, documented), rule, c, p.Pos(ret.Pos()), "",
+				"the computed answer can be false outside the documented cases (path: "+facts.StripVersions(facts.String(neg))+"): the exposure of the workload towards that representative peer is then never computed and goes unreported")
+			return
 		}
-		has := map[string]bool{}
-		var others []string
-		for _, l := range ls {
-			if strings.HasPrefix(l, "other:") {
-				others = append(others, strings.TrimPrefix(l, "other:"))
-			} else {
-				has[l] = true
-			}
-		}
-		row := "?"
-		switch {
-		case len(others) > 0 || !has["rep"]:
-			row = "?"
-		case !has["ip"] && !has["ing"]:
-			row = "both representative"
-		case has["ip"] && !has["ing"]:
-			row = "representative and IP"
-		case has["ing"] && !has["ip"]:
-			row = "representative and ingress controller"
-		}
-		ok2 := row != "?" && !rows[row]
-		rows[row] = true
-		r.Check(ok2, rule, fmt.Sprintf("%s: exclusion #%d is one of the three documented cases (%s)", fd.Key(), n, row), p.Pos(ret.Pos()), "",
-			"a pair with a representative peer is excluded for a reason ("+strings.Join(others, ", ")+") that is not one of: both ends representative, representative with an IP block, representative with the ingress controller - the exposure of the workload towards that representative peer is then never computed and goes unreported")
-		return true
-	})
-	// the final verdict is `true`
-	last := fd.Decl.Body.List[len(fd.Decl.Body.List)-1]
-	if ret, ok := last.(*ast.ReturnStmt); !ok || len(ret.Results) != 1 || core.ExprStr(ret.Results[0]) != "true" {
-		r.Bad(rule, fd.Key()+": every other pair is included", p.Pos(last.Pos()), "the function no longer ends in `return true`")
+		r.Check(facts.Entails(f, documented), rule, c, p.Pos(ret.Pos()), "path: "+facts.StripVersions(facts.String(f)),
+			"a pair with a representative peer is excluded on the path ("+facts.StripVersions(facts.String(f))+"), which is not within: both ends representative, representative with an IP block, representative with the ingress controller - the exposure of the workload towards that representative peer is then never computed and goes unreported")
 	}
+	w.WalkBody(fd.Decl.Body, nil)
 	r.RuleCounts[rule] = n
-	r.Floor(rule, 3)
+	r.Floor(rule, 1)
 }
